@@ -101,3 +101,30 @@ package mocktikv
 //@   opaque-callee newScanIterator Decode Valid Release mvccDecode mvccEncode Key
 //@   at def(keepNext) assert unlocked: !(ok && lockDec.lock.startTS <= safePoint)
 //@   ensures persisted: result == nil ==> batch.written
+
+// The lock decoder answers "found" only without error (every error path returns false).
+//@ func (*lockDecoder) Decode
+//@   prop C12
+//@   may-panic
+//@   opaque-callee Error Valid Key Value Next mvccDecode UnmarshalBinary
+//@   ensures clean: result1 != nil ==> !result0
+
+// prewriteMutation (decision rules; the conflict check itself opaque):
+//   - a lock of another transaction on the key refuses the prewrite, nothing is added to the batch;
+//   - the transaction's own prewrite lock makes it a no-op answered "done" (repeating a prewrite changes nothing);
+//   - over the transaction's own pessimistic lock write conflicts are NOT checked again (the reference, TiKV, does not:
+//     the pessimistic lock request already did, at its for-update timestamp): the check that still looks for a rollback
+//     marker and evaluates the assertion runs without a conflict bound, and the lock is replaced by a prewrite lock - one record;
+//   - without any lock a pessimistic prewrite that expects its lock is refused, an optimistic one runs the conflict check
+//     and, if that passes, adds the lock - one record.
+//@ func prewriteMutation
+//@   prop C12
+//@   may-panic
+//@   opaque-callee newIterator Release checkConflictValue MarshalBinary mvccEncode
+//@   modifies leveldb.Batch.n of batch
+//@   at call(checkConflictValue) assert nolock: ok ==> arg_forUpdateTS == 18446744073709551615
+//@   at return assert foreign: ok && dec.lock.startTS != startTS ==> result != nil && batch.n == old(batch.n)
+//@   at return assert repeated: ok && dec.lock.startTS == startTS && dec.lock.op != kvrpcpb.Op_PessimisticLock ==> result == nil && batch.n == old(batch.n)
+//@   ensures expected: !ok && pessimisticAction == kvrpcpb.PrewriteRequest_DO_PESSIMISTIC_CHECK ==> result != nil && batch.n == old(batch.n)
+//@   at return assert locked: result == nil && !(ok && dec.lock.startTS == startTS && dec.lock.op != kvrpcpb.Op_PessimisticLock) ==> batch.n == old(batch.n) + 1
+//@   ensures refused: result != nil ==> batch.n == old(batch.n)
